@@ -5,7 +5,9 @@ block exists; every exit block ends with  r = r + a ; sp = sp + 4 ; IRDst = END 
 writes both ABI output registers, as the IRAOutRegs pattern of test/analysis/unssa.py needs; bodies over an
 alphabet with registers, stack memory reads/writes, a store through a register pointer, parallel swap, an
 uninterpreted call (call_func_ret), stack pointer arithmetic, and (ALPHA_WIDTH) narrow stores into the upper bytes /
-upper word of a 32-bit stack slot whose content is known, with wide and narrow reads of that slot.  The thorough tier adds a fixed list of x86_32
+upper word of a 32-bit stack slot whose content is known, with wide and narrow reads of that slot.  Three templates
+with longer blocks add the dummy-phi situation: a register defined by an operation that reads memory, saved in another
+register, the cell stored to, the register restored, in one arm of a triangle / diamond or in a loop body.  The thorough tier adds a fixed list of x86_32
 functions assembled with miasm's own assembler and lifted with the real x86 lifter (mc/x86funcs.py).
 
 Pipelines (each on a fresh copy of the graph):
@@ -384,7 +386,61 @@ def check_x86(idx, pipelines=X86_PIPELINES):
 
 # ------------------------------------------------------------------ enumeration
 
+# ------------------------------------------------------------------ templates: dummy phi over a memory-reading definition
+# A register reaches a join through copies of ONE definition on one path (saved in another register, restored after a
+# store) and directly on the other; the definition is an operation containing a memory read (or, for comparison, a bare
+# read / no read); the memory cell is stored to between the definition and the join, in one arm of a triangle / diamond
+# or in a loop body.  Blocks hold up to 4 assignments, which the lattice does not reach.
+#   (name, shape, per block alternative bodies, per block condition)
+_DEFS = [("r=@[sp+4]+1",), ("r=zx@8[sp+5]",), ("a=@[sp+4]+1",), ("r=@[sp+4]",), ("r=a",)]
+_ARMS = [("c=r", "@[sp+4]=0", "r=c"), ("c=r", "@[sp+4]=b", "r=c"), ("c=r", "@8[sp+5]=b", "r=c"), ("c=a", "@[sp+4]=b", "a=c"),
+         ("c=r", "r=c"), ("@[sp+4]=b",)]
+TEMPLATES = [
+    ("dummy-phi/store-in-one-arm-of-a-triangle", ((1, 2), (2,), ()), [_DEFS, _ARMS, [()]], ["b", None, None]),
+    ("dummy-phi/store-in-one-arm-of-a-diamond", ((1, 2), (3,), (3,), ()), [_DEFS[:3], _ARMS[:4], [(), ("c=r", "r=c")], [()]],
+     ["b", None, None, None]),
+    ("dummy-phi/store-in-a-loop-body", ((1,), (1, 2), ()), [_DEFS[:3], [x + ("a=a+1",) for x in _ARMS[:4]], [()]], [None, "a", None]),
+]
+
+
+def template_point(ti, choice):
+    """A template member as a lattice point (n, shape index, body indexes, condition indexes, alphabet, conditions)."""
+    name, shape, alts, cond_names = TEMPLATES[ti]
+    n = len(shape)
+    bodies = [alts[i][choice[i]] for i in range(n)]
+    alphabet = sorted(set(x for b in bodies for x in b))
+    conds = sorted(set(c for c in cond_names if c)) or ["a"]
+    body_idx = tuple(tuple(alphabet.index(x) for x in b) for b in bodies)
+    cond_idx = tuple(conds.index(c) if c else 0 for c in cond_names)
+    return n, irgen.shapes(n).index(shape), body_idx, cond_idx, alphabet, conds
+
+
+def _template_shard(args):
+    _, ti, pipelines, epi = args
+    name, shape, alts, cond_names = TEMPLATES[ti]
+    cnt = nt = 0
+    vs, sigs, tot, sample = [], {}, {}, None
+    for choice in itertools.product(*[range(len(a)) for a in alts]):
+        cnt += 1
+        n, si, body_idx, cond_idx, alphabet, conds = template_point(ti, choice)
+        v, info = check_graph(n, si, body_idx, cond_idx, alphabet, conds, pipelines, epi)
+        for k, x in info.items():
+            tot[k] = tot.get(k, 0) + x
+        if info["changed"] and info["compared"]:
+            nt += 1
+            if sample is None:
+                sample = "template %s: %s" % (name, irgen.describe(shape, body_idx, cond_idx, alphabet, conds))
+        for x in v:
+            sigs[x["sig"]] = sigs.get(x["sig"], 0) + 1
+            if sigs[x["sig"]] <= 2:
+                vs.append(x)
+    tot["template_graphs"] = cnt
+    return cnt, nt, vs, sample, sigs, tot
+
+
 def _shard(args):
+    if args[0] == "template":
+        return _template_shard(args)
     if args[0] == "x86":
         v, info = check_x86(args[1])
         sigs = {}
@@ -450,14 +506,15 @@ ALPHA_MEM = ["@[sp+4]=a", "a=@[sp+4]", "@[a]=b", "r=call(a)", "sp=sp-4"]
 # narrow stores at offsets >= their own size inside the wider slot @[sp+4] whose content is known, reads of the slot
 # and narrow reads of the wide store
 ALPHA_WIDTH = ["@[sp+4]=a", "@8[sp+5]=b", "@8[sp+6]=b", "@8[sp+7]=b", "@16[sp+6]=b", "r=@[sp+4]", "r=@8[sp+6]", "r=@16[sp+6]"]
+ALPHA_WIDTH_Q = ["@[sp+4]=a", "@8[sp+5]=b", "@8[sp+6]=b", "@16[sp+6]=b", "r=@[sp+4]", "r=@16[sp+6]"]
 ALPHA_N2 = ["a=b", "a=a+1", "swap", "r=a", "@[sp+4]=a", "a=@[sp+4]", "@[a]=b", "r=call(a)", "sp=sp-4"]
 PLAN_Q = [
     (1, 2, ALPHA_FULL, ["a"], TWO, "add-ret"),
-    (1, 2, ALPHA_FULL, ["a"], TWO, "ret"),
+    (1, 2, ALPHA_FULL, ["a"], ("ssa",), "ret"),
     (2, 1, ALPHA_N2, ["a"], ALL3, "add-ret"),
     (2, 1, ALPHA_N2, ["a"], TWO, "ret"),
     (3, 1, ["a=a+1", "swap"], ["a"], ("ssa",), "add-ret"),
-    (1, 3, ALPHA_WIDTH, ["a"], ("ssa",), "add-ret"),
+    (1, 3, ALPHA_WIDTH_Q, ["a"], ("ssa",), "add-ret"),
 ]
 PLAN_T = [
     (1, 3, ALPHA_FULL, ["a"], TWO, "add-ret"),
@@ -495,6 +552,9 @@ def run(ctx):
         idx = [i for i in range(ns) if irgen.shape_has_exit(irgen.shapes(n)[i])]
         for i in idx:
             shards.append(("irgen", n, maxlen, alphabet, conds, i, i + 1, pipelines, epi))
+    for ti in range(len(TEMPLATES)):
+        shards.append(("template", ti, TWO if ctx.quick else ALL3, "add-ret"))
+        shards.append(("template", ti, ("ssa",) if ctx.quick else TWO, "ret"))
     nx86 = 0
     if not ctx.quick:
         from mc import x86funcs
@@ -521,12 +581,15 @@ def run(ctx):
         "state_runs_compared": tot.get("compared", 0),
         "compared_runs_with_memory_writes": tot.get("runs_with_writes", 0),
         "compared_runs_with_call_events": tot.get("runs_with_calls", 0),
+        "template_graphs(dummy phi over a memory-reading definition)": tot.get("template_graphs", 0),
         "x86_functions": nx86,
         "graphs_not_run_after_repeated_non_termination": tot.get("not_run", 0),
         "violating_graphs_by_signature": sigcount,
         "samples": [r[3] for r in res if r[3]][:6],
         "exhaustive": True,
         "bounds": {"plan(blocks,max_assignments,alphabet,conditions,pipelines,exit_epilogue)": [[n, l, a, c, list(p), e] for n, l, a, c, p, e in plan],
+                   "templates(name,shape,body_alternatives,conditions; quick: common+ssa with exit 'add-ret', ssa with 'ret'; thorough: all three / common+ssa)":
+                       [[t[0], t[1], t[2], t[3]] for t in TEMPLATES],
                    "fuel_blocks": FUEL, "x86_pipelines": list(X86_PIPELINES),
                    "state_lattice": "a,b in {0,1,2,0xFFFFFFFF} (when read), sp in {0x1000,0xFFFFFFFC} and bytes sp+4..sp+11 in {address pattern, zero} (when memory is used)"},
     }
